@@ -928,7 +928,10 @@ def _seed_kw_square(rng, v, form=None):
 
 def _seed_kw_bip(rng, nr, nc, vr, vc):
     """labels_row / labels_col / both, or `labels` alone (rows only) on a rectangular matrix"""
-    mode = rng.choice(['both', 'both', 'row', 'labels'])
+    mode = rng.choice(['both', 'both', 'row', 'labels', 'labels+col'])
+    if mode == 'labels+col':
+        # `labels` is an alias of `labels_row` for a bipartite input and is stacked with `labels_col`
+        return {'labels': mk_seed(_form(rng), vr), 'labels_col': mk_seed(_form(rng), vc)}
     if mode == 'both':
         return {'labels_row': mk_seed(_form(rng), vr), 'labels_col': mk_seed(_form(rng), vc)}
     if mode == 'row':
@@ -1101,7 +1104,7 @@ def gen_jobs(ctx, scale=1.0, mode='run'):
             if not any(x >= 0 for x in vr):
                 vr[0] = v[nr] if v[nr] >= 0 else 1
             kw = _seed_kw_bip(rng, nr, nc, vr, vc)
-            if nr == nc and 'labels' in kw:
+            if nr == nc and 'labels' in kw and 'labels_col' not in kw:
                 kw = {'labels_row': kw['labels']}
             ctx.count('graph:bipartite')
             jobs.append(_prop_job(rng, g, kw, weighted=rng.random() < 0.6,
